@@ -23,12 +23,12 @@ NA = {
 CLAIMED = {
  "C05": ("exploration",
    "two-task deterministic simulation (scanner goroutine + parser) under a step clock; deadlock and non-termination decided by the scheduler; exhaustive EOF-point enumeration over the corpus plus seeded input mutation",
-   "Every parse runs as the main task of a simulation in which the scanner goroutine is a second task and the token channel is modelled for enabledness, so 'returns', 'blocks for ever' and 'spins for ever' are exact, replayable verdicts in simulated steps instead of a test timeout. The end of input is injected at every byte offset of every corpus item (exhaustive), then seeded token-level mutants, tag-dictionary sequences, pumped and random inputs. Sampling beyond the exhaustive prefix part: a clean run is evidence, not proof.",
+   "Every parse runs as the main task of a simulation in which the scanner goroutine is a second task and the token channel is modelled for enabledness, so 'returns', 'blocks for ever' and 'spins for ever' are exact, replayable verdicts in simulated steps instead of a test timeout. The end of input is injected at every byte offset of every corpus item (exhaustive), then seeded token-level mutants, tag-dictionary sequences, pumped and random inputs. Besides the absolute bound of StepsPerByte*(n+64) simulated steps, a scale-free linearity oracle parses the same pumped input at n and 4n bytes and bounds the growth of simulated time by a factor 7 (standard-library scans are charged per byte). Sampling beyond the exhaustive prefix part: a clean run is evidence, not proof.",
    "Trusts: the instrumenter's rewrites preserve soy's semantics (the instrumented copy passes soy's own test suite; same-seed runs are compared in the determinism self-test); simulated time counts soy statements, not CPU inside the standard library; the linear-time constant StepsPerByte is a harness constant >20x the measured worst case.",
    "DESIGN.md section 4 C05"),
  "C18": ("exploration",
    "deterministic simulation of call histories: after each parse call returns, the scheduler runs the remaining tasks to quiescence and its task table names every scanner task that is alive and disabled for ever",
-   "Sequences of up to 200 parse calls (file, expression, globals, compile) execute inside one simulated process. The simulator owns the task table and the channel model, so 'the scanner has exited when the call returns' is decided exactly at quiescence - no goroutine-count polling, no sleeps. Both schedules that matter (scanner blocked in a send when the parser gives up; scanner not yet there) are forced. Exhaustive over every prefix of the corpus, seeded beyond.",
+   "Sequences of up to 200 parse calls (file, expression, globals, compile) execute inside one simulated process. The simulator owns the task table and the channel model, so 'the scanner has exited when the call returns' is decided exactly at quiescence - no goroutine-count polling, no sleeps. Both schedules that matter (scanner blocked in a send when the parser gives up; scanner not yet there) are forced. Exhaustive over every prefix of the corpus, seeded beyond. A second phase runs a sample of the same sequences on the un-instrumented build and searches the real runtime's goroutine dump for scanner frames once it has settled.",
    "Trusts the channel enabledness model of verif/simrt (differentially tested against native channels) and that soy blocks only on channels (the instrumenter lists any sync.WaitGroup/Cond use as un-modelled).",
    "DESIGN.md section 4 C18"),
  "C06": ("fault_enumeration",
@@ -43,17 +43,17 @@ CLAIMED = {
    "DESIGN.md section 4 C08"),
  "C09": ("exploration",
    "seeded one-task-at-a-time scheduler over real goroutines with handoffs hidden from ThreadSanitizer (race-freedom), plus interleaving search (random/PCT/coarse/round-robin) against a run-alone output oracle",
-   "Client tasks share one compiled bundle, data maps and message bundle and render, generate JS, compile and parse under a schedule drawn from the run's PRNG; yields sit before every statement of soy. The baton is handed over with channel operations the race detector is told to ignore, so the execution is serial and exactly replayable yet any pair of conflicting accesses soy does not order itself is reported - independent of the interleaving chosen - while the interleaving search feeds the second oracle (bytes equal the operation run alone). Sampling over bundles, operation mixes and schedules; a determinism slice re-executes units in fresh processes inside every run.",
-   "Trusts ThreadSanitizer and the Go memory model annotation of channels, go statements and sync; trusts that runtime.RaceDisable hides exactly the simulator's handoffs (self-tested: an unsynchronised shared append is reported in every execution, a mutex-protected one never). Blocking primitives other than channels, Mutex/RWMutex and Once are not modelled.",
+   "Client tasks share one compiled bundle, data maps, Go struct values, *Renderer objects and a message bundle (a stateless stub or the repository's own PO-file bundle) and render, generate JS, compile and parse under a schedule drawn from the run's PRNG; yields sit before every statement of soy. The baton is handed over with channel operations the race detector is told to ignore, so the execution is serial and exactly replayable yet any pair of conflicting accesses soy does not order itself is reported - independent of the interleaving chosen - while the interleaving search feeds the second oracle (bytes equal the operation run alone). Sampling over bundles, operation mixes and schedules; a determinism slice re-executes units in fresh processes inside every run.",
+   "Trusts ThreadSanitizer and the Go memory model annotation of channels, go statements and sync; trusts that runtime.RaceDisable hides exactly the simulator's handoffs (self-tested: an unsynchronised shared append is reported in every execution, a mutex-protected one never). Channels, select, Mutex/RWMutex, Once and sync.Pool are modelled; WaitGroup.Wait and Cond.Wait inside soy are not (the instrumenter lists them).",
    "DESIGN.md section 3.3 and 4 C09"),
  "C10": ("exploration",
    "map-iteration-order seam: every range-over-map site of the placeholder naming pass is perturbed one at a time and all together with seeded, replayable order decisions; plus compile histories, context variants, sensitivity variants and a native cross-process comparison",
-   "Decides the stability, independence and sensitivity clauses: ids, placeholder names and placeholder strings must not depend on Go's map iteration order (decided through the seam, which reaches every rotation on demand instead of waiting for the runtime to pick it), on what was compiled before, on the process, on surrounding messages, file, namespace, template or description - and must change with text, meaning, placeholders and plural structure. Conformance of the numbers to Google's fingerprint is NOT decided (pure function with an external reference).",
+   "Decides the stability, independence and sensitivity clauses: ids, placeholder names and placeholder strings must not depend on Go's map iteration order (decided through the seam, which reaches every rotation on demand instead of waiting for the runtime to pick it), on what was compiled before, on the process (a fresh child process compiles the unit's messages in reverse order and must agree), on surrounding messages, file, namespace, template or description - and must change with text (also in the last byte at every length modulo 12), meaning, placeholders and plural structure. Conformance of the numbers to Google's fingerprint is NOT decided (pure function with an external reference).",
    "Trusts that map iteration order is the only schedule-like input of the naming pass (the native cross-process comparison exists to catch another) and that 63-bit ids do not collide in the sensitivity clause.",
    "DESIGN.md section 3.5 and 4 C10"),
  "C13": ("exploration",
    "map-iteration-order seam over all range-over-map sites and reflect.MapKeys (seeded per-execution decisions, single-site perturbation), file-insertion-order permutations, and the unmodified build in fresh processes under native order",
-   "The only thing between equal sources and equal results is Go's map iteration order and the order files were added; both are treated as a scheduler whose decisions are seeded, logged, replayable and minimisable. The observation vector (accept/reject and error text, message ids and names, rendered output, JS per file x formatter x catalogue) must be identical under every sampled order assignment and every file order (small bundles exhaustively). The native cross-check ties the seam to reality: native vectors must equal the canonical reference, and a native disagreement is reported even without a seam reproduction.",
+   "The only thing between equal sources and equal results is Go's map iteration order and the order files were added; both are treated as a scheduler whose decisions are seeded, logged, replayable and minimisable. The observation vector (accept/reject and error text, message ids and names, rendered output, JS per file x formatter x catalogue) must be identical under every sampled order assignment and every file order (small bundles exhaustively). The native cross-check ties the seam to reality: native vectors must equal the canonical reference, and a native disagreement is reported even without a seam reproduction; a fresh child process compiles the unit's cases in reverse order and must agree as well (process-level state).",
    "Trusts the instrumenter to have rewritten every range-over-map (it reports counts and un-modelled order sources such as sync.Map.Range) and that orders produced by the seam are orders the Go runtime may produce (rotations of slot order for single-bucket maps, arbitrary for larger ones, by the language spec).",
    "DESIGN.md section 3.5 and 4 C13"),
  "C12": ("fault_enumeration",
